@@ -19,6 +19,7 @@ import (
 	"errors"
 	"io"
 	"net"
+	"sync"
 
 	"github.com/honeytrap/honeytrap/director"
 	"github.com/honeytrap/honeytrap/event"
@@ -186,8 +187,6 @@ func (s *sshProxyService) Handle(ctx context.Context, conn net.Conn) error {
 		))
 
 		requestFn := func(in <-chan *ssh.Request, dst ssh.Channel) {
-			defer dst.Close()
-
 			for req := range in {
 				log.Debugf("Request: %s %s %s %s\n", dst, req.Type, req.WantReply, req.Payload)
 
@@ -241,17 +240,38 @@ func (s *sshProxyService) Handle(ctx context.Context, conn net.Conn) error {
 			}
 		}
 
-		go requestFn(requests, channel2)
-		go requestFn(requests2, channel)
+		// Each direction has a data relay and a request relay. A channel is
+		// closed only when both relays towards it are done: the request
+		// relay sees the peer's close as soon as it arrives, while data
+		// sent before it may still be waiting to be copied.
+		var toClient, toBackend sync.WaitGroup
 
-		copyFn := func(dst io.ReadWriteCloser, src io.ReadCloser) {
+		toClient.Add(2)
+		toBackend.Add(2)
+
+		go func() {
+			defer toBackend.Done()
+			requestFn(requests, channel2)
+		}()
+
+		go func() {
+			defer toClient.Done()
+			requestFn(requests2, channel)
+		}()
+
+		copyFn := func(dst ssh.Channel, src io.ReadCloser) {
 			_, err := io.Copy(dst, src)
 			if err == io.EOF {
 			} else if err != nil {
 				log.Error(err.Error())
 			}
 
-			dst.Close()
+			// this direction is done: pass on the end of data only. Closing
+			// the channel here cut off whatever the other side was still
+			// sending (a client without input lost the command's output);
+			// the channels are closed by the request relays when their
+			// peers close.
+			dst.CloseWrite()
 		}
 
 		var wrappedChannel io.ReadCloser = channel
@@ -259,8 +279,23 @@ func (s *sshProxyService) Handle(ctx context.Context, conn net.Conn) error {
 		twrc := NewTypeWriterReadCloser(channel2)
 		var wrappedChannel2 io.ReadCloser = twrc
 
-		go copyFn(channel2, wrappedChannel)
-		copyFn(channel, wrappedChannel2)
+		go func() {
+			defer toBackend.Done()
+			copyFn(channel2, wrappedChannel)
+		}()
+
+		go func() {
+			toBackend.Wait()
+			channel2.Close()
+		}()
+
+		func() {
+			defer toClient.Done()
+			copyFn(channel, wrappedChannel2)
+		}()
+
+		toClient.Wait()
+		channel.Close()
 
 		s.c.Send(event.New(
 			services.EventOptions,
